@@ -62,13 +62,23 @@ func unusualSpecs(rng *rand.Rand, n int) []struct {
 				continue
 			}
 			var t []indep.Tok
-			switch rng.Intn(4) {
+			switch rng.Intn(5) {
 			case 0: // fractional width and side bearing through div
 				t = append(t, num(int64(rng.Intn(90))), num(7), cmd("div"), num(1001+int64(rng.Intn(50))), num(2), cmd("div"), cmd("hsbw"))
 				desc = append(desc, "fractional-width")
 			case 1:
 				t = append(t, num(int64(rng.Intn(60))), num(int64(rng.Intn(30)-15)), num(500), num(int64(rng.Intn(9))), cmd("sbw"))
 				desc = append(desc, "sbw")
+			case 2: // negative and fractional negative advances (right-to-left, vertical writing)
+				switch rng.Intn(3) {
+				case 0:
+					t = append(t, num(int64(rng.Intn(80))), num(-int64(1+rng.Intn(1000))), cmd("hsbw"))
+				case 1:
+					t = append(t, num(0), num(0), num(0), num(-int64(1+rng.Intn(1000))), cmd("sbw"))
+				default:
+					t = append(t, num(int64(rng.Intn(80))), num(-1201), num(4), cmd("div"), cmd("hsbw")) // -300.25
+				}
+				desc = append(desc, "negative-width")
 			default:
 				t = append(t, num(int64(rng.Intn(80))), num(int64(rng.Intn(1000))), cmd("hsbw"))
 			}
@@ -234,6 +244,31 @@ func closureT1(args []string) error {
 			return err
 		}
 		inputs = append(inputs, input{data, fmt.Sprintf("independent writer: %s %+v", u.desc, u.lay)})
+	}
+	// a font of realistic size: the encrypted portion is well beyond 64 KiB (three-byte PFB lengths)
+	{
+		num := func(v int64) indep.Tok { return indep.Tok{T: "n", V: v} }
+		cmd := func(c string) indep.Tok { return indep.Tok{T: "c", C: c} }
+		big := &indep.FontSpec{FontName: "BigFont", Toks: map[string][]indep.Tok{}, Subrs: [][]indep.Tok{{cmd("return")}, {cmd("return")}, {cmd("return")}, {cmd("return")}},
+			Info:    []string{"/version (1) readonly def", "/FullName (Big) readonly def", "/FamilyName (B) readonly def", "/Weight (R) readonly def", "/ItalicAngle 0 def", "/isFixedPitch false def", "/UnderlinePosition -100 def", "/UnderlineThickness 50 def"},
+			Private: []string{"/BlueValues [-10 0 700 710] def"}, Encoding: map[int]string{}}
+		big.Glyphs = append(big.Glyphs, ".notdef")
+		big.Toks[".notdef"] = []indep.Tok{num(0), num(250), cmd("hsbw"), cmd("endchar")}
+		for g := 0; g < 420; g++ {
+			name := fmt.Sprintf("g%03d", g)
+			t := []indep.Tok{num(int64(g % 50)), num(int64(400 + g)), cmd("hsbw"), num(10), num(10), cmd("rmoveto")}
+			for s := 0; s < 24; s++ {
+				t = append(t, num(int64(100+s*7+g)), num(int64(-90+s*5)), cmd("rlineto"))
+			}
+			t = append(t, cmd("closepath"), cmd("endchar"))
+			big.Glyphs = append(big.Glyphs, name)
+			big.Toks[name] = t
+		}
+		for _, cont := range []string{"pfb", "pfa"} {
+			if data, err := indep.WriteFont(big, indep.Layout{Cont: cont, LenIV: 4, Names: "RD", Enc: "none"}); err == nil {
+				inputs = append(inputs, input{data, fmt.Sprintf("independent writer: big font (%d bytes) %s", len(data), cont)})
+			}
+		}
 	}
 	for i, c := range fuzzCorpus(filepath.Join(repo, "type1/testdata/fuzz/FuzzFont")) {
 		inputs = append(inputs, input{c, fmt.Sprintf("fuzz corpus entry %d", i)})
